@@ -352,9 +352,33 @@ class Skip(Exception):
     pass
 
 
+SIM_BOUND_OK = None
+
+
+def probe_sim_bound():
+    """does SdSimulation simulate exactly the grid points asked for?  (C05's `until + dt` exclusive bound rounds up for
+    start 1.0, dt 0.2: a one-step run at 2.2 returns {2.2, 2.4}.)  Repaired by C05 (`exclusive=False`)."""
+    created = []
+    try:
+        bp = make_factory(dict(probe_case(0.2, 6, [2], [], start=1.0), stop=2.2), created)()
+        bp.begin_session(scenarios=[SC], scenario_managers=[SM], equations=["s"], dt=0.2)
+        bp.session_state["step"] = 2.2
+        r = bp.run_step()
+        return len(r[SM][SC]["s"]) == 1
+    except Exception:
+        return False
+    finally:
+        for b in created: b.destroy()
+
+
 def c05_clean(case):
-    """run specs on which the bare-float bound `until + dt` of SdSimulation (C05's defect, repaired there) does not
-    add a grid point: for every grid time t, timerange(t, t+dt, dt) == [t], and the batch grid ends at stop."""
+    """While C05's bound defect is in the tree: keep only run specs on which the bare-float bound `until + dt` does not add
+    a grid point (for every grid time t, timerange(t, t+dt, dt) == [t], and the batch grid ends at stop)."""
+    global SIM_BOUND_OK
+    if SIM_BOUND_OK is None:
+        SIM_BOUND_OK = probe_sim_bound()
+    if SIM_BOUND_OK:
+        return True
     from BPTK_Py.util import timerange
     grid = timerange(case["start"], case["stop"] + case["dt"], case["dt"])
     return bool(grid) and grid[-1] == case["stop"] and all(len(timerange(t, t + case["dt"], case["dt"])) == 1 for t in grid)
@@ -479,6 +503,7 @@ def run(chk):
             found.setdefault(key, (case, text, detail))
     chk.cov["input_distribution"] = dist
     chk.cov["skipped_run_specs_hit_by_C05_until_plus_dt"] = skipped
+    chk.notes["sim_bound_exact (C05)"] = SIM_BOUND_OK
     chk.cov["rule"] = ("34 fixed cases (5 dt values x 4 partitions of a whole run without settings; 7 requested-equation sets x 2 dt with a constant "
                        "changed at the fourth step) + seeded random cases: model coefficients x (start, dt, n) x requested set x 1..6 calls "
                        "(run-step / run-steps m / stream-steps, each with or without a new value of c); per case 3 batch formats, REST run, "
